@@ -165,6 +165,16 @@ let register (h : (string, string list -> string) Hashtbl.t)
                           Buffer.add_string b (string_of_int (List.length t.tt)); Buffer.add_char b ' ') (lex l);
       Buffer.contents b
     | _ -> failwith "lexc args");
+  (* ---------------- TokDiff (C04 checker) ----------------
+     tokdiff <allowed> <a> <b>   each a list of tokens "hexcsv;hexcsv;..." ("-" for none)  ->  "<diff_ok> <balanced a> <balanced b> <c04_ok>" *)
+  Hashtbl.replace h "tokdiff" (fun args ->
+    match args with
+    | [al; a; b] ->
+      let toks s = if s = "-" then [] else List.map ints_of_csv (String.split_on_char ';' s) in
+      let bs x = if x then "1" else "0" in
+      let (al, a, b) = (toks al, toks a, toks b) in
+      String.concat " " [bs (diff_ok al a b); bs (balanced a); bs (balanced b); bs (c04_ok al a b)]
+    | _ -> failwith "tokdiff args");
   Hashtbl.replace h "backup_step" (fun args ->
     match args with
     | [fl; bk; cpl; md; prot; ev] ->
